@@ -369,12 +369,18 @@ where
         })
     }
 
-    fn update(&mut self, iter: impl IntoIterator<Item = K>) {
+    /// Updates the keys to match the new contents of the collection, and returns the path
+    /// segments of the keys that were removed (they will be reused for keys added later).
+    fn update(
+        &mut self,
+        iter: impl IntoIterator<Item = K>,
+    ) -> Vec<StorePathSegment> {
         let new_keys = iter
             .into_iter()
             .enumerate()
             .map(|(idx, key)| (key, idx))
             .collect::<FxHashMap<K, usize>>();
+        let mut removed = Vec::new();
 
         // remove old keys and recycle the slots
         self.keys.retain(|key, old_entry| match new_keys.get(key) {
@@ -384,6 +390,7 @@ where
             }
             None => {
                 self.spare_keys.push(old_entry.0);
+                removed.push(old_entry.0);
                 false
             }
         });
@@ -398,6 +405,8 @@ where
                 self.keys.insert(key, (path, idx));
             }
         }
+
+        removed
     }
 }
 
@@ -432,6 +441,16 @@ impl Default for KeyMap {
 }
 
 impl KeyMap {
+    /// Forgets the keys of every keyed field at or below the given path.
+    fn remove_below(&self, prefix: &StorePath) {
+        #[cfg(not(target_arch = "wasm32"))]
+        self.0.retain(|path, _| !path.starts_with(prefix));
+        #[cfg(target_arch = "wasm32")]
+        self.0
+            .borrow_mut()
+            .retain(|path, _| !path.starts_with(prefix));
+    }
+
     fn with_field_keys<K, T>(
         &self,
         path: StorePath,
